@@ -148,6 +148,74 @@ pub fn check_roundtrip(conf: &WConf, entries: &Entries) -> Check {
     Ok(())
 }
 
+/// An entry whose lengths add up to 2^32 or more (>= 4 GiB): written and read back without ever copying it more than
+/// the library itself does. Returns Ok(false) when the machine has not enough free memory (the case is skipped).
+pub fn check_giant(klen: usize, vlen: usize) -> Check<bool> {
+    let avail_kib: u64 = std::fs::read_to_string("/proc/meminfo")
+        .ok()
+        .and_then(|s| s.lines().find(|l| l.starts_with("MemAvailable:")).and_then(|l| l.split_whitespace().nth(1).and_then(|v| v.parse().ok())))
+        .unwrap_or(0);
+    if avail_kib < 30 * 1024 * 1024 {
+        return Ok(false);
+    }
+    let key = {
+        let mut k = vec![0x42u8; klen];
+        if let Some(l) = k.last_mut() {
+            *l = 0x43;
+        }
+        k
+    };
+    let val = {
+        let mut v = vec![0x17u8; vlen];
+        for i in (0..vlen).step_by(1 << 20) {
+            v[i] = (i >> 20) as u8;
+        }
+        if let Some(l) = v.last_mut() {
+            *l = 0xEE;
+        }
+        v
+    };
+    let r = crate::common::catch(|| -> Result<Result<(), String>, std::io::Error> {
+        let mut w = grenad::Writer::memory();
+        w.insert(b"\x01first", b"small")?;
+        w.insert(&key, &val)?;
+        let bytes = w.into_inner()?;
+        let reader = match grenad::Reader::new(std::io::Cursor::new(bytes.as_slice())) {
+            Ok(r) => r,
+            Err(e) => return Ok(Err(format!("cannot open: {e}"))),
+        };
+        let mut c = match reader.into_cursor() {
+            Ok(c) => c,
+            Err(e) => return Ok(Err(format!("cannot create a cursor: {e}"))),
+        };
+        match c.move_on_next() {
+            Ok(Some((k, v))) if k == b"\x01first" && v == b"small" => {}
+            other => return Ok(Err(format!("first entry wrong: {:?}", other.map(|o| o.map(|(k, v)| (k.len(), v.len())))))),
+        }
+        match c.move_on_next() {
+            Ok(Some((k, v))) => {
+                if k.len() != key.len() || v.len() != val.len() {
+                    return Ok(Err(format!("lengths ({}, {}) come back as ({}, {})", key.len(), val.len(), k.len(), v.len())));
+                }
+                if k != key.as_slice() || v != val.as_slice() {
+                    return Ok(Err("the giant entry comes back with altered bytes".into()));
+                }
+            }
+            other => return Ok(Err(format!("giant entry missing: {:?}", other.map(|o| o.map(|(k, v)| (k.len(), v.len())))))),
+        }
+        match c.move_on_next() {
+            Ok(None) => Ok(Ok(())),
+            other => Ok(Err(format!("unexpected third entry: {:?}", other.map(|o| o.map(|(k, v)| (k.len(), v.len())))))),
+        }
+    });
+    match r {
+        Ok(Ok(Ok(()))) => Ok(true),
+        Ok(Ok(Err(m))) => Err(Fail::new("c14:giant", format!("entry with key length {klen} and value length {vlen}: {m}"))),
+        Ok(Err(e)) => Err(Fail::new("c14:giant:io", format!("entry with key length {klen} and value length {vlen}: I/O error {e}"))),
+        Err(p) => Err(Fail::new("c14:giant:panic", format!("entry with key length {klen} and value length {vlen}: panic {p}"))),
+    }
+}
+
 fn sweep(ranges: Vec<(u64, u64, u64)>, threads: usize) -> (u64, Option<(u32, String)>) {
     // ranges: (start, end_exclusive, step)
     let done = AtomicU64::new(0);
@@ -219,7 +287,7 @@ impl Prop for C14 {
     }
 
     fn assumptions(&self) -> Vec<String> {
-        vec!["API-level lengths above 2^28+1 are not materialised (a 4 GiB entry needs > 12 GiB); the codec-level enumeration covers them".into()]
+        vec!["quick: API-level lengths above 2^21+1 are not materialised; thorough adds 2^28-1..2^28+1 and two entries of >= 4 GiB (value of 2^32-1 bytes; key and value of 2^31 bytes each) when >= 30 GiB of memory are available".into()]
     }
 
     fn run(&self, case: &Case, obs: &mut Obs) -> Check {
@@ -319,6 +387,23 @@ impl Prop for C14 {
         out.counters.insert("api_pairs_checked".into(), pairs.len() as u64);
         out.samples.push(json!({"kind": "api-pairs", "lengths": lens, "pairs": pairs.len()}));
         out.violations.extend(results.into_inner().unwrap());
+        // thorough: entries whose key and value lengths add up to 2^32 or more (one at a time: ~15 GiB each)
+        if tier == Tier::Thorough && out.violations.is_empty() && std::env::var("VERIF_NO_GIANT").is_err() {
+            for (k, v) in [(3usize, u32::MAX as usize), (1usize << 31, 1usize << 31)] {
+                match check_giant(k, v) {
+                    Ok(true) => {
+                        out.evaluations += 1;
+                        out.nontrivial += 1;
+                        *out.counters.entry("giant_entries_checked".into()).or_insert(0) += 1;
+                    }
+                    Ok(false) => {
+                        *out.counters.entry("giant_entries_skipped_low_memory".into()).or_insert(0) += 1;
+                    }
+                    Err(f) => out.violations.push((f, json!({"GiantEntry": [k, v]}))),
+                }
+            }
+            out.samples.push(json!({"kind": "giant-entries", "lengths(key,value)": [[3, u32::MAX], [1u64 << 31, 1u64 << 31]]}));
+        }
         out
     }
 }
